@@ -25,6 +25,8 @@ Section Indexed.
   Variable c : comparer.
   Variable rd : treader.
   Variable sl : option krange.                       (* the iterator's slice field *)
+  Variable strict : bool.                            (* its strict flag *)
+  Definition static (t : titer) : Prop := ti_slice t = sl /\ ti_strict t = strict.
   Variable IL : list (bytes * bytes).                (* index entries the index iterator ranges over *)
   Variable RI : biter -> cpos -> Prop.
   Hypothesis RI_ok : refines_over c IL RI.
@@ -36,8 +38,11 @@ Section Indexed.
   Local Notation kvs := (concat V).
 
   (* indexIter.Get at index position i opens an iterator over V i *)
-  Hypothesis get_ok : forall t i, RI (ti_index t) (CAt i) -> ti_slice t = sl ->
-    exists d0 R, index_get c rd t = Some (DBlock d0) /\ refines_over c (Vi i) R /\ R d0 CSOI.
+  (* ... or, for a block that cannot be read, the empty iterator carrying the corruption error;
+     a non-strict iterator then treats the block as holding nothing *)
+  Hypothesis get_ok : forall t i, RI (ti_index t) (CAt i) -> static t ->
+    (exists d0 R, index_get c rd t = Some (DBlock d0) /\ refines_over c (Vi i) R /\ R d0 CSOI) \/
+    (index_get c rd t = Some (DEmpty ErrCorrupt) /\ Vi i = [] /\ strict = false).
 
   (* routing: what the index seek tells about the virtual blocks *)
   Hypothesis route_at : forall key i, c_seek c IL key = CAt i ->
@@ -115,7 +120,7 @@ Section Indexed.
 
   (* ---------------- representation ---------------- *)
   Definition trep (t : titer) (p : cpos) : Prop :=
-    ti_err t = None /\ ti_slice t = sl /\
+    ti_err t = None /\ static t /\
     match p with
     | CSOI => ti_data t = None /\ RI (ti_index t) CSOI
     | CEOI => ti_data t = None /\ RI (ti_index t) CEOI
@@ -127,12 +132,21 @@ Section Indexed.
     end.
 
   Definition fresh_at (t : titer) (i : nat) : Prop :=
-    exists d0 R, ti_data t = Some (DBlock d0) /\ refines_over c (Vi i) R /\ R d0 CSOI.
+    (exists d0 R, ti_data t = Some (DBlock d0) /\ refines_over c (Vi i) R /\ R d0 CSOI) \/
+    (ti_data t = Some (DEmpty ErrCorrupt) /\ Vi i = [] /\ strict = false).
 
-  Lemma set_data_fresh t i : RI (ti_index t) (CAt i) -> ti_slice t = sl -> fresh_at (ti_set_data c rd t) i.
+  Lemma set_data_fresh t i : RI (ti_index t) (CAt i) -> static t -> fresh_at (ti_set_data c rd t) i.
   Proof.
-    intros R Hsl. destruct (get_ok t i R Hsl) as (d0 & R0 & E & Hro & H0).
-    exists d0, R0. unfold ti_set_data. cbn [ti_with ti_data]. auto.
+    intros R Hsl. destruct (get_ok t i R Hsl) as [(d0 & R0 & E & Hro & H0) | (E & Hv & Hst)].
+    - left. exists d0, R0. unfold ti_set_data. cbn [ti_with ti_data]. auto.
+    - right. unfold ti_set_data. cbn [ti_with ti_data]. auto.
+  Qed.
+
+  (* what every method does with an unreadable block under a non-strict iterator *)
+  Lemma data_err_skipped t e0 : static t -> strict = false ->
+    ti_data_err (ti_with t (ti_index t) (Some (DEmpty ErrCorrupt)) e0) (DEmpty ErrCorrupt) = None.
+  Proof.
+    intros [_ Hst] Hs. unfold ti_data_err. cbn [d_err ti_with ti_strict]. rewrite Hst, Hs. reflexivity.
   Qed.
 
   Lemma ri_noerr ix p : RI ix p -> bi_err ix = None.
@@ -166,7 +180,7 @@ Section Indexed.
 
   Lemma next_chain : forall fu t ip,
     (nV - nxt ip < fu)%nat ->
-    ti_err t = None -> ti_slice t = sl -> ti_data t = None -> RI (ti_index t) ip ->
+    ti_err t = None -> static t -> ti_data t = None -> RI (ti_index t) ip ->
     exists ok t', ti_advance c rd (ti_next_f c rd fu) t = (ok, t') /\
                   trep t' (first_from (nxt ip)) /\ ok = is_at (first_from (nxt ip)).
   Proof.
@@ -177,10 +191,20 @@ Section Indexed.
     destruct (Nat.ltb_spec (nxt ip) nV) as [L|L]; subst ok; cbn [is_at negb].
     - set (i := nxt ip) in *.
       set (t1 := ti_with t ix (ti_data t) (ti_err t)).
-      destruct (set_data_fresh t1 i R' Hsl) as (d0 & R0 & Ed & Hro & H0).
+      assert (He1 : ti_err (ti_set_data c rd t1) = None) by exact He.
+      destruct (set_data_fresh t1 i R' Hsl) as [(d0 & R0 & Ed & Hro & H0) | (Ed & Ev & Hst)].
+      2:{ (* unreadable block, non-strict: skipped like an empty block *)
+        cbn [ti_next_f]. unfold ti_has_err. rewrite He1, Ed. cbn [d_lift].
+        rewrite (data_err_skipped (ti_set_data c rd t1) _ Hsl Hst).
+        rewrite <- (first_from_empty i L Ev).
+        destruct (IH (ti_clear_data (ti_with (ti_set_data c rd t1) (ti_index (ti_set_data c rd t1)) (Some (DEmpty ErrCorrupt)) None)) (CAt i))
+          as (ok3 & t' & E3 & Ht & Eok3); try reflexivity.
+        - cbn [nxt]. unfold i in *. lia.
+        - exact Hsl.
+        - exact R'.
+        - exists ok3, t'. cbn [nxt] in Ht, Eok3. auto. }
       (* Next on the fresh block *)
       cbn [ti_next_f]. unfold ti_has_err.
-      assert (He1 : ti_err (ti_set_data c rd t1) = None) by exact He.
       rewrite He1, Ed. cbn [d_lift].
       destruct (ro_step _ _ _ Hro d0 CSOI OpNext H0) as (ok2 & d' & E2 & R2 & Eok2).
       cbn [bi_step c_step c_next] in E2, R2, Eok2. rewrite E2. unfold c_first in R2, Eok2.
@@ -267,16 +291,26 @@ Section Indexed.
     - unfold c_last. destruct IL eqn:E; rewrite len_V; [reflexivity|]. cbn [length]. f_equal. lia.
   Qed.
 
+  Lemma enter_skipped pos self t : static t -> strict = false -> ti_data t = Some (DEmpty ErrCorrupt) ->
+    ti_enter pos self t = self (ti_clear_data (ti_with t (ti_index t) (Some (DEmpty ErrCorrupt)) (ti_err t))).
+  Proof.
+    intros Hsl Hst Ed. unfold ti_enter. rewrite Ed. cbn [d_lift].
+    rewrite (data_err_skipped t _ Hsl Hst). reflexivity.
+  Qed.
+
   (* Last on a freshly opened block *)
   Lemma enter_last self t i :
-    ti_err t = None -> ti_slice t = sl -> RI (ti_index t) (CAt i) -> fresh_at t i ->
+    ti_err t = None -> static t -> RI (ti_index t) (CAt i) -> fresh_at t i ->
     match Vi i with
-    | [] => exists t'', ti_enter bi_last self t = self t'' /\ ti_err t'' = None /\ ti_slice t'' = sl /\
+    | [] => exists t'', ti_enter bi_last self t = self t'' /\ ti_err t'' = None /\ static t'' /\
                         ti_data t'' = None /\ ti_index t'' = ti_index t
     | _ => exists t', ti_enter bi_last self t = (true, t') /\ trep t' (CAt (before i + (length (Vi i) - 1)))
     end.
   Proof.
-    intros He Hsl R (d0 & R0 & Ed & Hro & H0). pose proof (ri_pos _ _ R) as Hi.
+    intros He Hsl R [(d0 & R0 & Ed & Hro & H0) | (Ed & Ev & Hst)]. pose proof (ri_pos _ _ R) as Hi.
+    2:{ rewrite Ev. rewrite (enter_skipped bi_last self t Hsl Hst Ed).
+        eexists. split; [reflexivity|]. cbn [ti_clear_data ti_with ti_err ti_data ti_index].
+        split; [exact He|]. split; [exact Hsl|]. split; reflexivity. }
     unfold ti_enter. rewrite Ed. cbn [d_lift].
     destruct (ro_step _ _ _ Hro d0 CSOI OpLast H0) as (ok & d' & E & R' & Eok).
     cbn [bi_step c_step] in E, R', Eok. rewrite E. unfold c_last in R', Eok.
@@ -293,7 +327,7 @@ Section Indexed.
 
   Lemma prev_chain : forall fu t ip,
     (prv ip < fu)%nat -> (forall i, ip = CAt i -> (i < nV)%nat) ->
-    ti_err t = None -> ti_slice t = sl -> ti_data t = None -> RI (ti_index t) ip ->
+    ti_err t = None -> static t -> ti_data t = None -> RI (ti_index t) ip ->
     exists ok t', ti_retreat c rd (ti_prev_f c rd fu) t = (ok, t') /\
                   trep t' (last_upto (prv ip)) /\ ok = is_at (last_upto (prv ip)).
   Proof.
@@ -442,7 +476,7 @@ Section Indexed.
   Qed.
 
   Lemma tnext_nodata t ip :
-    ti_err t = None -> ti_slice t = sl -> ti_data t = None -> RI (ti_index t) ip ->
+    ti_err t = None -> static t -> ti_data t = None -> RI (ti_index t) ip ->
     exists ok t', ti_next c rd t = (ok, t') /\ trep t' (first_from (nxt ip)) /\ ok = is_at (first_from (nxt ip)).
   Proof.
     intros He Hsl Hd R. unfold ti_next, ti_fuel.
@@ -468,7 +502,15 @@ Section Indexed.
     - rewrite Ei in R', Eok. subst ok. cbn [is_at negb].
       pose proof (ri_pos _ _ R') as Hi.
       set (t1 := ti_with t ix (ti_data t) None).
-      destruct (set_data_fresh t1 i R' Hsl) as (d0 & R0 & Ed & Hro & H0).
+      destruct (set_data_fresh t1 i R' Hsl) as [(d0 & R0 & Ed & Hro & H0) | (Ed & Ev & Hst)].
+      2:{ (* unreadable block, non-strict: skipped *)
+        rewrite (enter_skipped _ (ti_next c rd) (ti_set_data c rd t1) Hsl Hst Ed).
+        assert (Eqe : c_seek c (Vi i) key = CEOI) by (rewrite Ev; reflexivity).
+        rewrite (seek_after i key Hi Ei Eqe).
+        match goal with |- context [ti_next c rd ?T] =>
+          destruct (tnext_nodata T (CAt i)) as (ok3 & t' & E3 & Ht3 & Eok3); [reflexivity | exact Hsl | reflexivity | exact R' |]
+        end.
+        rewrite E3. cbn [nxt] in Ht3, Eok3. exists ok3, t'. auto. }
       unfold ti_enter. rewrite Ed. cbn [d_lift].
       destruct (ro_step _ _ _ Hro d0 CSOI (OpSeek key) H0) as (ok2 & d' & E2 & R2 & Eok2).
       cbn [bi_step c_step] in E2, R2, Eok2. rewrite E2.
@@ -504,10 +546,19 @@ Section Indexed.
   Proof. unfold c_last. rewrite len_V. destruct IL; reflexivity. Qed.
 
   Lemma next_fresh fu t i : (nV - i < fu)%nat ->
-    ti_err t = None -> ti_slice t = sl -> RI (ti_index t) (CAt i) -> fresh_at t i ->
+    ti_err t = None -> static t -> RI (ti_index t) (CAt i) -> fresh_at t i ->
     exists ok t', ti_next_f c rd fu t = (ok, t') /\ trep t' (first_from i) /\ ok = is_at (first_from i).
   Proof.
-    intros Hf He Hsl R (d0 & R0 & Ed & Hro & H0). pose proof (ri_pos _ _ R) as Hi.
+    intros Hf He Hsl R [(d0 & R0 & Ed & Hro & H0) | (Ed & Ev & Hst)]; pose proof (ri_pos _ _ R) as Hi.
+    2:{ destruct fu as [|fu]; [lia|]. cbn [ti_next_f]. unfold ti_has_err. rewrite He, Ed. cbn [d_lift].
+        rewrite (data_err_skipped t _ Hsl Hst).
+        rewrite <- (first_from_empty i Hi Ev).
+        destruct (next_chain fu (ti_clear_data (ti_with t (ti_index t) (Some (DEmpty ErrCorrupt)) None)) (CAt i))
+          as (ok3 & t' & E3 & Ht & Eok3); try reflexivity.
+        - cbn [nxt]. lia.
+        - exact Hsl.
+        - exact R.
+        - exists ok3, t'. cbn [nxt] in Ht, Eok3. auto. }
     destruct fu as [|fu]; [lia|]. cbn [ti_next_f]. unfold ti_has_err. rewrite He, Ed. cbn [d_lift].
     destruct (ro_step _ _ _ Hro d0 CSOI OpNext H0) as (ok2 & d' & E2 & R2 & Eok2).
     cbn [bi_step c_step c_next] in E2, R2, Eok2. rewrite E2. unfold c_first in R2, Eok2.
